@@ -18,7 +18,7 @@ TECHNIQUE = 'property-based testing (Hypothesis): generated models, every alloca
 LEVEL_TEXT = 'Generated-input search: every allocation decision of every generated run is checked against an independent eligibility predicate on the spec; not a proof.'
 LEVEL_NOTE = 'Trusts the step observer and the builder.'
 
-CFG = gen.Cfg(unit_time=6, warm_modes=["morph", "graft", "carry", "append", "nolog"], warm=3, onesided=4, facilities=True, max_time=[40, 80], p_auto=12, abs_p=2, abs_size=6, abs_max=12)
+CFG = gen.Cfg(unit_time=6, warm_modes=["morph", "graft", "carry", "append", "nolog", "cutrerun"], warm=3, onesided=4, facilities=True, max_time=[40, 80], p_auto=12, abs_p=2, abs_size=6, abs_max=12)
 
 
 # "pinned": facility tasks that fix one facility (and often one or two workers) - both fixed-ID lists at once
